@@ -48,7 +48,7 @@ COMPONENTS = {
 }
 FAULT_KINDS = ["oserror_open", "oserror_read", "oserror_mkdir", "torn", "crash", "crash_before", "files_lost_after_crash",
                "hash_seed", "walk_permutation", "creation_order", "prepopulated_output", "relative_paths",
-               "unrelated_files_in_spec_tree", "spec_edited_between_runs", "failed_protocol_py_run_before", "second_generator_object_in_process"]
+               "unrelated_files_in_spec_tree", "spec_edited_between_runs", "failed_protocol_py_run_before", "second_generator_object_in_process", "deep_spec_files_edited_before"]
 PROBES = ["walk_order_differs_from_sorted", "fault_on_first_write", "fault_on_last_write", "retry_on_same_instance",
           "torn_init_file", "restart_after_crash", "acronym_or_digit_type_name", "import_check", "second_run_same_instance"]
 SHRINK_KEYS = []
@@ -327,7 +327,19 @@ def run_configs(ctx):
             ctx.child([{"op": "protocol_py", "script": script, "args": ["generate"],
                         "fault": {"kind": random.Random(plan["fault_seed"]).choice(["torn", "oserror_open"]), "at": k}}], "0")
             res.count("fault.failed_protocol_py_run_before")
-        ws.write_tree(tree)
+        # protocol.py over a variant whose net/client, net/server and pub/server files differ; then the real tree
+        if "prepop_other" in configs and random.Random(plan["fault_seed"] ^ 77).random() < 0.5:
+            variant = edited_variant(tree)
+            mixed = {rel: (variant[rel] if rel.count("/") == 2 else tree[rel]) for rel in tree}
+            ws.write_tree(mixed)
+            ctx.child([{"op": "rmtree", "dir": gen_dir}, {"op": "protocol_py", "script": script, "args": ["generate"]}], "0")
+            res.count("fault.deep_spec_files_edited_before")
+            for rel in sorted(tree):                      # edit in place, as a developer would: only the files that differ
+                if mixed[rel] != tree[rel]:
+                    with open(os.path.join(ws.xml_dir, rel), "w", encoding="utf-8") as f:
+                        f.write(tree[rel])
+        else:
+            ws.write_tree(tree)
         rs = ctx.child([{"op": "protocol_py", "script": script, "args": ["generate"]}, {"op": "digest", "dir": gen_dir}], "0")
         res.count("fault.prepopulated_output")
         key("prepop_other_clean")
@@ -347,7 +359,7 @@ def run_configs(ctx):
             res.evaluations += 1
             res.count("probe.import_check")
             key("import")
-            ctx.tr.ev("import", len(types), rs[0].get("problems"))
+            ctx.tr.ev("import", len(types), len(rs[0].get("problems") or []))     # texts carry scratch paths
             probs = rs[0].get("problems") or ([rs[0].get("error")] if rs[0].get("status") == "child-error" else [])
             if probs:
                 what = "import-eolib" if probs[0].startswith("import eolib failed") else "class-not-exported"
